@@ -74,6 +74,8 @@ def cases(rng, quick):
             while e is None:
                 e = reg_expr(rng, regs)
             form = rng.choice(["Sgate(%s) | 0", "Dgate(0.5, %s) | [0, 1]", "MeasureX(phi=%s) | 2", "Rgate(1, a=%s, b=2) | 1", "BSgate(%s, q0) | 3"])
+            if ctx < 0.25 and rng.random() < 0.5:
+                form = rng.choice(["Gate({alpha}, %s) | 2", "Gate({alpha}, 0.5, %s) | 2", "Gate(2 * {b}, x, %s, {alpha}) | 1", "Gate({alpha}, k=%s, j={b}) | 0"])
             lines.append(form % e)
         if rng.random() < 0.5:
             # sibling expressions that differ in one constant only (caches keyed by anything but the expression itself show up here)
